@@ -52,108 +52,184 @@ def seek_arg(m):
 
 
 # ---------------------------------------------------------------- write_info
+def _write_info_regions(ctx):
+    """write_info as a list of regions: (seek kind, seek arg node, seek part, [emits...], loop group or None), in source order"""
+    fn = ctx.ast.fn(W, "write_info")
+    parts = emissions(fn.body, recv_is_param0(fn))
+    segs = split_structure(parts)
+    if [s_[0] for s_ in segs][-1:] == ["flush"]:
+        segs = segs[:-1]  # a final flush is C14-F1's concern
+    regions = []
+    for kind, val in segs:
+        if kind == "seek":
+            k, arg = seek_arg(val)
+            regions.append({"kind": k, "arg": arg, "seek": val, "emits": [], "loop": None})
+        elif not regions:
+            return fn, None, "emission before the first seek"
+        elif kind == "emits":
+            if regions[-1]["loop"] is not None:
+                return fn, None, "emission after the zoom loop inside one region"
+            regions[-1]["emits"].extend(val)
+        elif kind == "loop":
+            if regions[-1]["loop"] is not None:
+                return fn, None, "two loops in one region"
+            regions[-1]["loop"] = val
+        else:
+            return fn, None, "unexpected structure element `%s`" % kind
+    return fn, regions, None
+
+
+def _header_regions(regions):
+    """regions seeking to a literal offset inside the 64-byte header, with that offset"""
+    out = []
+    for r in regions:
+        if r["kind"] == "Start" and r["arg"] is not None and up(strip_cast(r["arg"])).isdigit():
+            out.append((int(up(strip_cast(r["arg"]))), r))
+    return out
+
+
+def _header_fields_at(off):
+    """index into COMMON_HEADER of the field starting at byte `off`"""
+    o = 0
+    for i, (fname, w, kind) in enumerate(F.COMMON_HEADER):
+        if o == off:
+            return i
+        o += w
+    return None
+
+
 def slot_params(ctx):
     """map header slot -> parameter index of write_info feeding it (discovered, not fixed)."""
     if "slot_params" in ctx.cache:
         return ctx.cache["slot_params"]
-    fn = ctx.ast.fn(W, "write_info")
-    parts = emissions(fn.body, recv_is_param0(fn))
-    segs = split_structure(parts)
-    if [s[0] for s in segs][-1:] == ["flush"]:
-        segs = segs[:-1]
+    fn, regions, err = _write_info_regions(ctx)
     out = {}
-    if segs and len(segs) > 1 and segs[1][0] == "emits" and len(segs[1][1]) == len(F.COMMON_HEADER):
-        for e, (fname, w, kind) in zip(segs[1][1], F.COMMON_HEADER):
-            if e.arg is not None:
-                o = origin(fn, e.arg)
-                if o.startswith("p") and o[1:].isdigit():
-                    out[fname] = int(o[1:])
-    # loop, summary, data count
-    for s in segs:
-        if s[0] == "loop":
-            ems = flat_emits(s[1].parts)
-            if ems and ems[0].arg is not None:
-                o = origin(fn, ems[0].arg)
-                if o.startswith("iter(p"):
-                    out["zoomHeaders"] = int(o[6:o.index(")")])
-    # summary param / data count param
-    emit_segs = [s for s in segs if s[0] == "emits"]
-    if len(emit_segs) >= 4:
-        o = origin(fn, emit_segs[1][1][0].arg) if emit_segs[1][1][0].arg is not None else ""
-        if o.startswith("p") and "." in o:
-            out["summary"] = int(o[1:o.index(".")])
-        o = origin(fn, emit_segs[2][1][0].arg) if emit_segs[2][1][0].arg is not None else ""
-        if o.startswith("p") and o[1:].isdigit():
-            out["dataCount"] = int(o[1:])
+    if regions is not None:
+        for off, r in _header_regions(regions):
+            i0 = _header_fields_at(off)
+            if i0 is None:
+                continue
+            for e, (fname, w, kind) in zip(r["emits"], F.COMMON_HEADER[i0:]):
+                if e.arg is not None:
+                    o = origin(fn, e.arg)
+                    if o.startswith("p") and o[1:].isdigit():
+                        out.setdefault(fname, int(o[1:]))
+            if r["loop"] is not None:
+                ems = flat_emits(r["loop"].parts)
+                if ems and ems[0].arg is not None:
+                    o = origin(fn, ems[0].arg)
+                    if o.startswith("iter(p"):
+                        out["zoomHeaders"] = int(o[6:o.index(")")])
+        for r in regions:
+            if r["kind"] == "Start" and r["arg"] is not None and not up(strip_cast(r["arg"])).isdigit() and r["emits"]:
+                o = origin(fn, r["emits"][0].arg) if r["emits"][0].arg is not None else ""
+                if len(r["emits"]) == len(F.TOTAL_SUMMARY) and o.startswith("p") and "." in o:
+                    out["summary"] = int(o[1:o.index(".")])
+                elif len(r["emits"]) == 1 and o.startswith("p") and o[1:].isdigit():
+                    out["dataCount"] = int(o[1:])
     ctx.cache["slot_params"] = out
     return out
 
 
 def ob_write_info(ctx, res):
-    fn = ctx.ast.fn(W, "write_info")
-    parts = emissions(fn.body, recv_is_param0(fn))
-    segs = split_structure(parts)
-    shape = ["seek", "emits", "loop", "seek", "emits", "seek", "emits", "seek", "emits"]
-    if [s[0] for s in segs][-1:] == ["flush"]:
-        segs = segs[:-1]  # a final flush is C14-F1's concern
-    if not expect_shape(res, fn, segs, shape, "write_info"):
+    fn, regions, err = _write_info_regions(ctx)
+    if regions is None:
+        res.fail("write_info/shape", fn, "write_info: %s" % err)
         return
-    # seek(Start(0)) first
-    kind, arg = seek_arg(segs[0][1])
-    if not (kind == "Start" and arg is not None and up(strip_cast(arg)) == "0"):
-        res.fail("write_info/seek0", segs[0][1].node, "header must be written at SeekFrom::Start(0), got %s" % up(segs[0][1].arg))
-    else:
-        res.ok(segs[0][1].node, "header written at Start(0)")
-    # common header: every non-reserved, non-version slot must come from a distinct parameter
-    prov = {}
-    for fname, w, kind_ in F.COMMON_HEADER:
-        if fname == "version":
-            prov[fname] = lambda o: o in ("lit:4",)
-        elif kind_ != "z":
-            prov[fname] = lambda o: o.startswith("p") and o[1:].isdigit()
-    if check_emit_seq(res, fn, segs[1][1], F.COMMON_HEADER, prov, "commonHeader"):
-        sp_ = slot_params(ctx)
+    sp_ = slot_params(ctx)
+    # --- the 64-byte common header + zoom directory: one or more regions at literal offsets that together cover every field once
+    hdr = _header_regions(regions)
+    covered = {}
+    okh = bool(hdr)
+    zoom_region = None
+    for off, r in hdr:
+        i0 = _header_fields_at(off)
+        if i0 is None:
+            res.fail("write_info/header-offset", r["seek"].node, "seek to byte %d, which is not the start of a header field" % off)
+            okh = False
+            continue
+        spec = F.COMMON_HEADER[i0:i0 + len(r["emits"])]
+        prov = {}
+        for fname, w, kind_ in spec:
+            if fname == "version":
+                prov[fname] = lambda o: o in ("lit:4",)
+            elif kind_ != "z":
+                prov[fname] = lambda o: o.startswith("p") and o[1:].isdigit()
+        if len(spec) != len(r["emits"]) or not check_emit_seq(res, fn, r["emits"], spec, prov, "commonHeader"):
+            okh = False
+            continue
+        for fname, _, _ in spec:
+            if fname in covered:
+                res.fail("write_info/header-twice", r["seek"].node, "header field `%s` is written twice" % fname)
+                okh = False
+            covered[fname] = r
+        if r["loop"] is not None:
+            last_field = F.COMMON_HEADER[i0 + len(r["emits"]) - 1][0] if r["emits"] else None
+            if last_field != F.COMMON_HEADER[-1][0]:
+                res.fail("write_info/zoom-dir-place", r["seek"].node, "the zoom directory must directly follow the 64-byte header")
+                okh = False
+            zoom_region = r
+    if okh and set(covered) != set(f for f, _, _ in F.COMMON_HEADER):
+        res.fail("write_info/header-missing", fn, "header fields never written: %s" % sorted(set(f for f, _, _ in F.COMMON_HEADER) - set(covered)))
+        okh = False
+    if okh:
         used = [sp_.get(f) for f, _, k in F.COMMON_HEADER if k != "z" and f != "version"]
         if len(set(used)) != len(used) or None in used:
             res.fail("commonHeader/distinct", fn, "two header slots are fed by the same parameter: %s" % sp_)
         else:
-            res.ok(fn, "64-byte common header: 12 fields, widths/order as published; slots<-params %s" % sp_)
+            res.ok(fn, "64-byte common header: 12 fields, widths/order/offsets as published (written at byte offsets %s); slots<-params %s" % (sorted(o for o, _ in hdr), sp_))
     # zoom directory
-    zl = flat_emits(segs[2][1].parts)
-    zprov = {"reductionLevel": lambda o: o.startswith("iter(p") and o.endswith(".reduction_level"),
-             "dataOffset": lambda o: o.startswith("iter(p") and o.endswith(".data_offset"),
-             "indexOffset": lambda o: o.startswith("iter(p") and o.endswith(".index_offset")}
-    if check_emit_seq(res, fn, zl, F.ZOOM_HEADER, zprov, "zoomHeader"):
-        res.ok(segs[2][1].node, "zoom directory entry: u32 level,u32 0,u64 data,u64 index (24 B) per entry")
-    # summary
-    kind, arg = seek_arg(segs[3][1])
-    sp_ = slot_params(ctx)
-    tso = sp_.get("totalSummaryOffset")
-    if not (kind == "Start" and arg is not None and origin(fn, arg) == "p%s" % tso):
-        res.fail("summary/seek", segs[3][1].node, "total summary must be written at Start(<the totalSummaryOffset header value>), got %s" % up(segs[3][1].arg))
-    sprov = {"basesCovered": lambda o: o.endswith(".bases_covered"), "minVal": lambda o: o.endswith(".min_val"),
-             "maxVal": lambda o: o.endswith(".max_val"), "sumData": lambda o: o.endswith(".sum"),
-             "sumSquares": lambda o: o.endswith(".sum_squares")}
-    if check_emit_seq(res, fn, segs[4][1], F.TOTAL_SUMMARY, sprov, "totalSummary"):
-        bases = set(origin(fn, e.arg).rsplit(".", 1)[0] for e in segs[4][1])
-        if len(bases) != 1:
-            res.fail("summary/one-source", fn, "summary fields come from different values: %s" % bases)
+    if zoom_region is None:
+        res.fail("write_info/zoom-dir", fn, "zoom directory loop not found after the header")
+    else:
+        zl = flat_emits(zoom_region["loop"].parts)
+        zprov = {"reductionLevel": lambda o: o.startswith("iter(p") and o.endswith(".reduction_level"),
+                 "dataOffset": lambda o: o.startswith("iter(p") and o.endswith(".data_offset"),
+                 "indexOffset": lambda o: o.startswith("iter(p") and o.endswith(".index_offset")}
+        if check_emit_seq(res, fn, zl, F.ZOOM_HEADER, zprov, "zoomHeader"):
+            res.ok(zoom_region["loop"].node, "zoom directory entry: u32 level,u32 0,u64 data,u64 index (24 B) per entry, directly after the header")
+    # summary / data count / trailer regions
+    tso, fdo, mg = sp_.get("totalSummaryOffset"), sp_.get("fullDataOffset"), sp_.get("magic")
+    rs = [r for r in regions if r["kind"] == "Start" and r["arg"] is not None and origin(fn, r["arg"]) == "p%s" % tso]
+    rc = [r for r in regions if r["kind"] == "Start" and r["arg"] is not None and origin(fn, r["arg"]) == "p%s" % fdo]
+    rt = [r for r in regions if r["kind"] == "End" and r["arg"] is not None and up(strip_cast(r["arg"])) == "0"]
+    if len(rs) != 1:
+        res.fail("summary/seek", fn, "total summary must be written once at Start(<the totalSummaryOffset header value>)")
+    else:
+        sprov = {"basesCovered": lambda o: o.endswith(".bases_covered"), "minVal": lambda o: o.endswith(".min_val"),
+                 "maxVal": lambda o: o.endswith(".max_val"), "sumData": lambda o: o.endswith(".sum"),
+                 "sumSquares": lambda o: o.endswith(".sum_squares")}
+        if check_emit_seq(res, fn, rs[0]["emits"], F.TOTAL_SUMMARY, sprov, "totalSummary"):
+            bases = set(origin(fn, e.arg).rsplit(".", 1)[0] for e in rs[0]["emits"])
+            if len(bases) != 1:
+                res.fail("summary/one-source", fn, "summary fields come from different values: %s" % bases)
+            else:
+                res.ok(rs[0]["emits"][0].node, "40-byte total summary u64,f64x4 from one Summary value, at the advertised offset")
+    if len(rc) != 1:
+        res.fail("datacount/seek", fn, "data count must be written once at Start(<fullDataOffset>)")
+    elif check_emit_seq(res, fn, rc[0]["emits"], [("dataCount", 8, "u")], {"dataCount": lambda o: o.startswith("p") and o[1:].isdigit()}, "dataCount"):
+        res.ok(rc[0]["emits"][0].node, "u64 data count at fullDataOffset")
+    if len(rt) != 1:
+        res.fail("trailer/seek", fn, "trailing magic must be written once at SeekFrom::End(0)")
+    elif check_emit_seq(res, fn, rt[0]["emits"], [("magic", 4, "u")], {"magic": lambda o: o == "p%s" % mg}, "trailer"):
+        res.ok(rt[0]["emits"][0].node, "trailing u32 magic = header magic, at End(0)")
+    known = [id(r) for _, r in hdr] + [id(r) for r in rs + rc + rt]
+    extra = [r for r in regions if id(r) not in known]
+    if extra:
+        res.fail("write_info/extra-region", extra[0]["seek"].node, "write_info writes somewhere the format table does not know: seek %s" % up(extra[0]["seek"].arg))
+    # --- C14: a reader accepts the file as soon as the leading magic is in place, so that must be the last thing written
+    if "magic" in covered:
+        mr = covered["magic"]
+        idx = [i for i, r in enumerate(regions) if r is mr][0]
+        later = [r for r in regions[idx + 1:] if r["emits"] or r["loop"] is not None]
+        more_in_region = len(mr["emits"]) > 1 or mr["loop"] is not None
+        if later or more_in_region:
+            what = "the rest of the header / zoom directory" if more_in_region and not later else "the total summary, the data count and the trailing magic"
+            res.fail("write_info/magic-not-last", mr["seek"].node,
+                     "the leading magic is written before %s: a crash (or a failed write) in between leaves a file that every reader opens as complete, "
+                     "with an all-zero summary / item count 0 (or a torn header); the magic at byte 0 must be the last emission of write_info" % what)
         else:
-            res.ok(segs[4][1][0].node, "40-byte total summary u64,f64x4 from one Summary value, at the advertised offset")
-    # data count at fullDataOffset
-    kind, arg = seek_arg(segs[5][1])
-    fdo = sp_.get("fullDataOffset")
-    if not (kind == "Start" and arg is not None and origin(fn, arg) == "p%s" % fdo):
-        res.fail("datacount/seek", segs[5][1].node, "data count must be written at Start(<fullDataOffset>), got %s" % up(segs[5][1].arg))
-    if check_emit_seq(res, fn, segs[6][1], [("dataCount", 8, "u")], {"dataCount": lambda o: o.startswith("p") and o[1:].isdigit()}, "dataCount"):
-        res.ok(segs[6][1][0].node, "u64 data count at fullDataOffset")
-    # trailing magic
-    kind, arg = seek_arg(segs[7][1])
-    if not (kind == "End" and arg is not None and up(strip_cast(arg)) == "0"):
-        res.fail("trailer/seek", segs[7][1].node, "trailing magic must be written at SeekFrom::End(0), got %s" % up(segs[7][1].arg))
-    mg = sp_.get("magic")
-    if check_emit_seq(res, fn, segs[8][1], [("magic", 4, "u")], {"magic": lambda o: o == "p%s" % mg}, "trailer"):
-        res.ok(segs[8][1][0].node, "trailing u32 magic = header magic, at End(0)")
+            res.ok(mr["seek"].node, "the magic at byte 0 is the last emission of write_info (everything it vouches for is written before)")
 
 
 def ob_blank_headers(ctx, res):
